@@ -56,6 +56,8 @@ def audit_solve(ctx, run, k, s):
         if not np.allclose(cs, inp["maxCulled"], rtol=1e-6, atol=1e-6 * max(1.0, float(cs[-1]))) and s.kind == "to_humans":
             ctx.count("meat-running-total-differs-from-cumsum")
             ctx.notes.append("round %d of %s: max_consumed_culled_kcals_each_month is not the running sum of each_month_meat_slaughtered" % (k + 1, run.iso))
+    if not getattr(run, "is_replay", False):
+        lpcheck.flag_variant_ties(ctx, run, k, s, "C01", nvar=ctx.budget(1, 3))
     if s.values is None or s.error:
         ctx.count("solve-failed:" + (s.error or "?")[:40])
         return
